@@ -1439,9 +1439,8 @@ func c15ProgramParts(r *Rand) (string, string) {
 	return strings.Join(libLines, "\n"), strings.Join(p.lines, "\n")
 }
 
-// c15PhantomFree: with breakOnError the code marks a thread "not running" without waiting
-// when an error return meets an interrogation state that already carries an error; polling
-// cannot observe that reliably, so such programs run with breakOnError off.
+// c15PhantomFree (no longer used to restrict cases): an error return meeting an interrogation state
+// that already carries an error used to mark the thread "not running" without waiting.
 func c15PhantomFree(trace []string) bool {
 	pending := false
 	for _, e := range trace {
@@ -1613,7 +1612,7 @@ func init() {
 						if n == 1 && r.Intn(4) == 0 {
 							bos = "1"
 						}
-						if r.Intn(3) == 0 && c15PhantomFree(trace) {
+						if r.Intn(3) == 0 {
 							boe = "1"
 						}
 						timing := []string{"poll", "window", "random", "random"}[r.Intn(4)]
@@ -1630,7 +1629,7 @@ func init() {
 				// StopThreads
 				g.Count("K")
 				kn := strconv.Itoa(1 + r.Intn(4))
-				if r.Intn(3) == 0 && c15PhantomFree(trace) {
+				if r.Intn(3) == 0 {
 					kn += "e" // StopThreads with breakOnError on
 					g.Count("K.boe")
 				}
@@ -1745,7 +1744,7 @@ func init() {
 						sc = c15Script(r, 1, false)
 					}
 					boe := "0"
-					if r.Intn(3) == 0 && c15PhantomFree(trace) {
+					if r.Intn(3) == 0 {
 						boe = "1"
 					}
 					g.Count("L." + mode)
